@@ -86,6 +86,7 @@ pub mod verif {
     pub use super::schema::webrtc::{message::Flag as SchemaFlag, Message as SchemaMessage};
     pub use super::util::{extract_framed_message, WebRtcMessage, MAX_FRAME_SIZE};
     pub use super::opening::verif_noise_prologue;
+    pub use super::substream::{Message as SubstreamMessage, SubstreamHandle};
 }
 
 /// Logging target for the file.
